@@ -18,6 +18,9 @@
   binary over the whole option cross product on a corpus and compares with the library in-process.
 -/
 import MdModel.Cli
+import MdProofs.C20Io
+import MdProofs.C20Opts
+import MdProofs.C20Dump
 namespace MdModel.Cli
 
 /-- all flag sets -/
